@@ -45,7 +45,14 @@ def atoms_of(c):
     x = (pix(c["ax"], GPTS[0]) + c["fx"] / 8.0) * dx
     y = (pix(c["ay"], GPTS[1]) + c["fy"] / 8.0) * dx
     pos = [(x, y, 1.0), ((0 + 3 / 8.0) * dx, (1 + 7 / 8.0) * dx, 3.0), ((GPTS[0] - 1 + 7 / 8.0) * dx, (GPTS[1] - 1 + 7 / 8.0) * dx, 2.5)]
-    return Atoms(["Si", "C", "O"], positions=pos, cell=(GPTS[0] * dx, GPTS[1] * dx, 4.0), pbc=True)
+    sym = ["Si", "C", "O"]
+    if c.get("column"):
+        # an atomic column: the same element in the same pixel and the same slice (z 1.0, 1.6, 0.4 are all in the first 2 A slice)
+        x2 = (pix(c["ax"], GPTS[0]) + ((c["fx"] + 2) % 8) / 8.0) * dx
+        y2 = (pix(c["ay"], GPTS[1]) + ((c["fy"] + 5) % 8) / 8.0) * dx
+        pos += [(x2, y2, 1.6), (x, y, 0.4)]
+        sym += ["Si", "Si"]
+    return Atoms(sym, positions=pos, cell=(GPTS[0] * dx, GPTS[1] * dx, 4.0), pbc=True)
 
 
 def potential(atoms, gpts, projection, sigmas):
@@ -113,7 +120,7 @@ def subpixel_event(c, rng):
 def tags_for(ev, clauses):
     c = ev["case"]
     return {"clauses": sorted(clauses), "k": ev["k"], "projection": ev.get("projection"), "sigmas": ev.get("sigmas"),
-            "atom_in_last_column_with_y_offset": c["ay"] == "last" and c["fy"] != 0, "how": ev.get("how")}
+            "atom_in_last_column_with_y_offset": c["ay"] == "last" and c["fy"] != 0, "how": ev.get("how"), "column": bool(c.get("column"))}
 
 
 def judge(ctx: Ctx, evs):
@@ -140,7 +147,7 @@ def run(ctx: Ctx):
     quick = ctx.tier == "quick"
     ctx.rule = ("cases = class of the first atom's pixel per axis (first / inner / last) x sub-pixel fraction (0, 3/8, 7/8) per axis x "
                 "shift (none, unit, wrapping, beyond the cell, negative) x repetition, enumerated by TLC from DeltasImpl (whose exact "
-                "check covers every pixel); instantiated on a 12 x 16 grid with two more atoms (one in the last pixel row/column "
+                "check covers every pixel); x an atomic column in the first atom's pixel or not; instantiated on a 12 x 16 grid with two more atoms (one in the last pixel row/column "
                 "with offsets); infinite projection for all, finite and thermal-sigma variants for a subset; non-trivial = non-zero "
                 "shift or repetition > 1")
     r = ctx.design_check("DeltasImpl", cfg_text=CFG.format(n=2 if quick else 3, m=3 if quick else 4), label="DeltasImpl=>Deltas", timeout=3000,
@@ -165,7 +172,7 @@ def run(ctx: Ctx):
             finite = (j % 16 == 1)
             evs.append(repeat_event(c, "finite" if finite else "infinite", j % 8 == 1, "tile" if j % 2 else "crystal"))
             ctx.case(("repeat", json.dumps(c), finite))
-        if j % 5 == 0:
+        if j % 5 == 0 or (c.get("column") and j % 2 == 0):
             evs.append(subpixel_event(c, rng))
             ctx.case(("subpixel", json.dumps(c)))
     for e in evs[:1] + evs[-1:]:
